@@ -78,6 +78,7 @@ class Case:
     branches: list = field(default_factory=list)
     analyze_exc: str = ""
     il: list = field(default_factory=list)             # printed IL statements
+    il_terms: list = field(default_factory=list)       # IL statements as Term trees (labels are Term('LABEL', (label-term,)))
     lift_exc: str = ""
     trunc_exc: str = ""                # exception when the buffer is one byte short
     templates_changed: bool = False
@@ -119,6 +120,21 @@ def il_str(x: Any, depth: int = 0) -> str:
     if isinstance(x, (list, tuple)):
         return "[" + ", ".join(il_str(a, depth + 1) for a in x) + "]"
     return repr(x)
+
+
+def clean_term(x: Any) -> Any:
+    """Make an IL tree picklable and canonical: objects -> class-name terms, externals -> short names."""
+    if isinstance(x, Term):
+        return Term(x.ctor, tuple(clean_term(a) for a in x.args), {k: clean_term(v) for k, v in x.kwargs.items()}, x.ln)
+    if isinstance(x, Obj):
+        return Term("OBJ:" + x.cls.name, (), {})
+    if isinstance(x, tuple) and x and x[0] == "external":
+        return x[1].split(".")[-1]
+    if isinstance(x, EnumMember):
+        return f"{x.cls}.{x.name}" if not isinstance(x.value, BitVec) else x.value
+    if isinstance(x, (list, tuple)):
+        return tuple(clean_term(a) for a in x)
+    return x
 
 
 class Sweeper:
@@ -198,7 +214,7 @@ class Sweeper:
             try:
                 ia.method(instr, "analyze", [info, ADDR])
                 c.info_len = info.length if isinstance(info.length, int) else None
-                c.branches = [(k, bits_str(t, 24) if isinstance(t, BitVec) else (repr(t) if isinstance(t, Lin) else t)) for k, t in info.branches]
+                c.branches = [(k, t) for k, t in info.branches]
             except Raised as e:
                 c.analyze_exc = f"{e.cls_name}@{e.where}"
         if "lift" in stages:
@@ -206,6 +222,7 @@ class Sweeper:
             try:
                 ia.method(instr, "lift", [il, ADDR])
                 c.il = [il_str(x) for x in il.ils]
+                c.il_terms = [clean_term(x) for x in il.ils]
             except Raised as e:
                 c.lift_exc = f"{e.cls_name}@{e.where}"
         if "trunc" in stages and pre is None and c.n > 1:
